@@ -23,6 +23,19 @@ accountings differ the model keeps an interval [lo, hi]:
 "must not delete" clauses use hi (no accounting says over), "must end within limit" uses lo.
 The blob-storage (content) limit is charged with downloaded + own bytes (own blobs occupy the
 same allocation but are never removable); limit 0 = unlimited.  Network limit 0 = nothing allowed.
+
+Rows without their file (status='finished' but no file of the recorded length in the blob
+directory: the file was removed behind the daemon's back and no start-up has demoted the row yet)
+are one more ambiguity of "usage", with two readings:
+    count  the row is a stored blob: it is charged, and deleting its row frees its bytes
+    skip   only bytes on disk are usage: the row is charged nothing, deleting it frees nothing
+Index(snap).usage() gives the interval over both (lo from skip, hi from count).  judge_pass judges
+the pass under each pure reading and reports a clause only when it is violated under BOTH (the
+reading that demands least, per clause).  U7: all clauses speak about the same "usage", so ONE
+reading has to satisfy all of them: a pass that violates some clause when such rows are counted
+and some other clause when they are not (e.g. it deletes blobs that are on disk although the
+bytes on disk are within the limit AND leaves the recorded usage over the limit) is a violation.
+The harness applies the same to the passes of one scenario (one daemon has one accounting).
 """
 import collections
 
@@ -34,8 +47,10 @@ def fl(n):
 
 
 class Index:
-    def __init__(self, snap):
+    def __init__(self, snap, dead='interval'):
+        """dead: how finished rows without their file enter the usage ('count' | 'skip' | 'interval' = both readings)"""
         self.snap = snap
+        self.dead = dead
         sd_of = collections.defaultdict(list)
         for sh, sd in snap['streams'].items():
             sd_of[sd].append(sh)
@@ -50,17 +65,32 @@ class Index:
             is_sd = h in sd_of
             own = bool(is_mine)
             cls = 'own' if own else ('content' if (streams or is_sd) else 'network')
+            on_disk = snap['disk'].get(h) == int(length)
             self.info[h] = {
                 'len': int(length), 'finished': status == 'finished', 'own': own, 'cls': cls, 'is_sd': is_sd,
                 'streams': streams, 'mult': max(1, len(streams)),
                 'has_file_row': any(s in files for s in streams) or any(s in files for s in sd_of.get(h, [])),
-                'on_disk': snap['disk'].get(h) == int(length), 'added_on': added_on,
+                'on_disk': on_disk, 'added_on': added_on,
+                'dead': status == 'finished' and not on_disk,        # finished row without its file
             }
+        self.has_dead = any(x['dead'] for x in self.info.values())
+
+    def void(self, h):
+        """under this reading the row is no stored blob: charged nothing, its deletion frees nothing"""
+        return self.dead == 'skip' and h in self.info and self.info[h]['dead']
 
     def usage(self):
+        if self.dead != 'interval' or not self.has_dead:
+            return self._usage(self.dead != 'skip')
+        a, b = self._usage(False), self._usage(True)
+        out = {k: (a[k][0], b[k][1]) for k in ('content', 'network', 'downloaded_mb', 'own_mb')}
+        out['bytes'] = dict(b['bytes'], without_file=sum(x['len'] for x in self.info.values() if x['dead']))
+        return out
+
+    def _usage(self, count_dead):
         c_d = c_m = o_d = o_m = n_d = n_own = sd_b = 0
         for x in self.info.values():
-            if not x['finished']:
+            if not x['finished'] or (x['dead'] and not count_dead):
                 continue
             if x['is_sd'] and not x['streams']:
                 sd_b += x['len']
@@ -114,10 +144,57 @@ def is_over(cls, use, climit, nlimit, bound='hi'):
     return (hi if bound == 'hi' else lo) > lim
 
 
+def short_key(key):
+    return '.'.join(key.split('/')[1:3])
+
+
 def judge_pass(pre, post, is_net, climit, nlimit, order=None, name=lambda h: h[:8]):
     """-> dict(violations=[(key, what, details)], hits=Counter, logs=Counter, facts=dict)"""
+    a = _judge(pre, post, is_net, climit, nlimit, order, name, 'count')
+    if not a['has_dead']:       # every finished row has its file: the two readings coincide
+        return a
+    b = _judge(pre, post, is_net, climit, nlimit, order, name, 'skip')
+    pcls = 'network' if is_net else 'content'
+    keys_a, keys_b = [v[0] for v in a['violations']], [v[0] for v in b['violations']]
+    out = dict(a)
+    out['violations'] = [v for v in a['violations'] if v[0] in keys_b]
+    out['hits'] = collections.Counter({k: min(n, b['hits'][k]) for k, n in a['hits'].items() if b['hits'][k]})
+    out['logs'] = a['logs'] + b['logs']
+    out['facts'] = dict(a['facts'], usage_if_rows_without_file_are_not_counted={
+        'before': b['facts']['usage_before_mb'], 'after': b['facts']['usage_after_mb']})
+    out['only_if_counted'] = [v for v in a['violations'] if v[0] not in keys_b]          # clauses violated under one reading only
+    out['only_if_not_counted'] = [v for v in b['violations'] if v[0] not in keys_a]
+    hits = out['hits']
+    hits['U7.checked_pass_with_rows_without_file'] += 1
+    hits[f'U7.checked.{pcls}'] += 1
+    if a['removed_without_file']:
+        hits['U7.row_without_file_removed_by_pass'] += 1
+        hits[f'U7.row_without_file_removed_by_pass.{pcls}'] += 1
+    for k in keys_a:
+        if k not in keys_b:
+            out['logs']['U7.violated_only_if_counted:' + k] += 1
+    for k in keys_b:
+        if k not in keys_a:
+            out['logs']['U7.violated_only_if_not_counted:' + k] += 1
+    if keys_b and not keys_a:
+        hits['U7.holds_only_if_rows_without_file_are_counted'] += 1
+    if keys_a and not keys_b:
+        hits['U7.holds_only_if_rows_without_file_are_not_counted'] += 1
+    if keys_a and keys_b and not out['violations']:
+        ka, kb = keys_a[0], keys_b[0]
+        wa, wb = a['violations'][0][1], b['violations'][0][1]
+        out['violations'] = [(
+            f'C19/U7/no-reading-of-rows-without-file-holds/{short_key(ka)}-if-counted+{short_key(kb)}-if-not/{pcls}',
+            f"{pcls}-pass with {a['facts']['rows_without_file']} finished row(s) whose file is gone: no single reading of their usage satisfies "
+            f"the statement.  Counted as stored: {wa}  ||  Not counted (bytes on disk only): {wb}",
+            {'if_counted': [[v[0], v[2]] for v in a['violations']], 'if_not_counted': [[v[0], v[1], v[2]] for v in b['violations']]})]
+    return out
+
+
+def _judge(pre, post, is_net, climit, nlimit, order, name, dead):
+    """one pure reading of finished rows without their file (dead = 'count' | 'skip')"""
     V, hits, logs = [], collections.Counter(), collections.Counter()
-    ip, iq = Index(pre), Index(post)
+    ip, iq = Index(pre, dead), Index(post, dead)
     up, uq = ip.usage(), iq.usage()
     pcls = 'network' if is_net else 'content'
     pname = pcls + '-pass'
@@ -129,7 +206,8 @@ def judge_pass(pre, post, is_net, climit, nlimit, order=None, name=lambda h: h[:
              'usage_before_mb': {'content[lo,hi]': list(up['content']), 'network[lo,hi]': list(up['network']),
                                  'downloaded': list(up['downloaded_mb']), 'own': list(up['own_mb'])},
              'usage_after_mb': {'content[lo,hi]': list(uq['content']), 'network[lo,hi]': list(uq['network'])},
-             'deleted': [name(h) for h in deleted]}
+             'deleted': [name(h) for h in deleted],
+             'rows_without_file': sum(1 for x in ip.info.values() if x['dead'])}
 
     def desc(hs):
         return [f"{name(h)}({ip.info[h]['len']}B,{ip.info[h]['cls']}{',sd' if ip.info[h]['is_sd'] else ''})"
@@ -153,7 +231,7 @@ def judge_pass(pre, post, is_net, climit, nlimit, order=None, name=lambda h: h[:
         if x is None:           # stray file without a row: belongs to no class, not judged
             logs['U3.stray_file_deleted'] += 1
             continue
-        if x['own']:
+        if x['own'] or ip.void(h):
             continue
         hits['U3.deleted_blob_class_checked'] += 1
         c = x['cls']
@@ -230,7 +308,7 @@ def judge_pass(pre, post, is_net, climit, nlimit, order=None, name=lambda h: h[:
             if wide >= excess_hi:
                 logs['U4.only_enough_with_fileless_or_offdisk_blobs'] += 1
     # ---- U5: the pass did not go on after its goal (whole-MiB accounting)
-    dc = [h for h in deleted if h in ip.info and not ip.info[h]['own'] and ip.info[h]['cls'] == pcls]
+    dc = [h for h in deleted if h in ip.info and not ip.info[h]['own'] and ip.info[h]['cls'] == pcls and not ip.void(h)]
     if dc and is_over(pcls, up, climit, nlimit, 'hi'):
         excess_hi = hi - lim
         fs = [fl(ip.info[h]['len']) for h in dc]
@@ -268,7 +346,8 @@ def judge_pass(pre, post, is_net, climit, nlimit, order=None, name=lambda h: h[:
                               {'order': desc(seq), 'goal_after_index': reached}))
     facts['deleted_n'] = len(deleted)
     return {'violations': V, 'hits': hits, 'logs': logs, 'facts': facts, 'deleted': deleted,
-            'usage_before': up, 'usage_after': uq}
+            'usage_before': up, 'usage_after': uq, 'has_dead': ip.has_dead or iq.has_dead,
+            'removed_without_file': [h for h in gone_rows if ip.info[h]['dead']]}
 
 
 # ------------------------------------------------------------------------------------ self test
@@ -277,8 +356,8 @@ def _h(tag):
     return hashlib.sha384(tag.encode()).hexdigest()
 
 
-def _mk(streams, net, drop=()):
-    """streams: [(id, own, has_file_row, [sizes])], net: [sizes] -> snapshot; `drop` = labels removed"""
+def _mk(streams, net, drop=(), nofile=()):
+    """streams: [(id, own, has_file_row, [sizes])], net: [sizes] -> snapshot; `drop` = labels removed, `nofile` = row without file"""
     s = {'blobs': {}, 'streams': {}, 'stream_blobs': [], 'files': [], 'disk': {}}
     names = {}
     t = 0
@@ -298,13 +377,15 @@ def _mk(streams, net, drop=()):
             s['stream_blobs'].append([sh, h])
             if f'{sid}.{k}' not in drop:
                 s['blobs'][h] = [n, 'finished', int(own), t]
-                s['disk'][h] = n
+                if f'{sid}.{k}' not in nofile:
+                    s['disk'][h] = n
     for k, n in enumerate(net):
         h = _h(f'net{k}')
         names[h] = f'net{k}'
         if f'net{k}' not in drop:
             s['blobs'][h] = [n, 'finished', 0, k]
-            s['disk'][h] = n
+            if f'net{k}' not in nofile:
+                s['disk'][h] = n
     return s, names
 
 
@@ -379,4 +460,29 @@ def self_test():
     post['blobs'][_h('net0')] = [MIB, 'finished', 0, 0]
     keys = [v[0] for v in judge_pass(pre, post, True, 0, 1, name=nm)['violations']]
     assert 'C19/U3/file-deleted-row-kept' in keys, keys
-    return 24
+    # finished rows without their file (d.1, d.5): 8 MiB on disk, 12 MiB recorded
+    st, gone = [('d', False, True, [two] * 6)], ('d.1', 'd.5')
+    pre, names = _mk(st, [], nofile=gone)
+    assert Index(pre).usage()['content'] == (8, 12) and Index(pre, 'count').usage()['content'] == (12, 12) \
+        and Index(pre, 'skip').usage()['content'] == (8, 8)
+    # limit 8: doing nothing holds if they are not counted; deleting d.0 and the row of d.1 holds if they are counted
+    r = judge_pass(pre, pre, False, 8, 0, name=nm)
+    assert not r['violations'] and r['hits']['U7.holds_only_if_rows_without_file_are_not_counted'] == 1, r['violations']
+    post, _ = _mk(st, [], drop=('d.0', 'd.1'), nofile=gone)
+    r = judge_pass(pre, post, False, 8, 0, name=nm)
+    assert not r['violations'] and r['hits']['U7.holds_only_if_rows_without_file_are_counted'] == 1 \
+        and r['hits']['U7.row_without_file_removed_by_pass'] == 1, r['violations']
+    # deleting d.0 but keeping the row of d.1: on disk 6 <= 8 was within the limit all along, recorded 10 > 8 is still over
+    post, _ = _mk(st, [], drop=('d.0',), nofile=gone)
+    keys = [v[0] for v in judge_pass(pre, post, False, 8, 0, name=nm)['violations']]
+    assert keys == ['C19/U7/no-reading-of-rows-without-file-holds/U4.still-over-limit-if-counted+U1.deleted-while-within-limit-if-not/content'], keys
+    # limit 6: over under both readings, nothing done -> the ordinary clause
+    keys = [v[0] for v in judge_pass(pre, pre, False, 6, 0, name=nm)['violations']]
+    assert keys == ['C19/U4/still-over-limit/content/limit-nonzero'], keys
+    post, _ = _mk(st, [], drop=('d.0', 'd.1', 'd.2'), nofile=gone)
+    assert not judge_pass(pre, post, False, 6, 0, name=nm)['violations']
+    # limit 12: within the limit under both readings, a blob deleted -> the ordinary clause
+    post, _ = _mk(st, [], drop=('d.0',), nofile=gone)
+    keys = [v[0] for v in judge_pass(pre, post, False, 12, 0, name=nm)['violations']]
+    assert keys == ['C19/U1/deleted-while-within-limit/content'], keys
+    return 32
